@@ -33,6 +33,9 @@ out of new() is accepted, an instance with a null / foreign / repeated defaulted
 Family `layout` (D only, see _layout_case): the attribute list of a class is edited between creations; positional arguments
 are paired with the attributes in their current order, keywords address the current attribute of that name.
 
+Family `falsy` (D only, see _falsy_case): generators that yield falsy ids; peek returns the pending value whatever it is and
+never reads from readfunc, next hands out the values in order without skipping any.
+
 Family `twin` (D only, see _twin_case): two metamodels with the same classes in one process, with separate generators or
 sharing one generator object, swapping and sharing generators along the way.  D: a defaulted id comes from the current
 generator of the metamodel the instance is created in, is non-null and new; only that generator advances, by the
@@ -61,6 +64,9 @@ RULE = ('(1) exhaustive: every interleaving of peek / next of length <= 9 (quick
         '(7) edited attribute lists (D only): delete_attribute / insert_attribute / append_attribute between creations, incl. moves '
         'and replacements that keep the number of attributes, then positional and keyword creations (arguments follow the CURRENT '
         'order); '
+        '(8) falsy ids (D only): IdGenerator subclasses whose readfunc yields 0, \'\', 0.0, False, () among ordinary values (zero-based '
+        'counter, negative start, mixed), 2-10 peek / next / next() / next(iter()) calls: peek returns the pending value and reads '
+        'nothing, next hands out every value in order; '
         '(4) two metamodels in one process (D only) with the same classes, separate generators or one shared generator '
         'object, 4-14 ops of new (through metamodel / metaclass / call) / fresh generator / take over the other one\'s generator / '
         'load short rows, in either metamodel; '
@@ -385,6 +391,28 @@ def _layout_case(r):
     return {'gen': 'user', 'start': 1, 'step': 1, 'fam': 'layout', 'attrs': attrs, 'ops': ops}
 
 
+FALSY = [0, '', 0.0, False, ()]
+
+
+def _falsy_case(r):
+    """D-only family `falsy`: user-defined IdGenerator subclasses whose readfunc yields FALSY ids among ordinary ones (a
+    zero-based counter, a counter coming up from a negative start, '', 0.0, False, an empty tuple) under peek / next histories.
+    'Peeking never advances a generator' is unconditional: peek returns the pending value - whatever it is - and the next
+    `next` returns that same value; the values come out in the order readfunc produced them, none is skipped."""
+    kind = r.choice(['zero-based', 'negative-start', 'mixed'])
+    if kind == 'zero-based':
+        seq = list(range(0, 12))
+    elif kind == 'negative-start':
+        start = -r.randint(1, 4)
+        seq = list(range(start, start + 12))
+    else:
+        seq = []
+        for i in range(12):
+            seq.append(r.choice(FALSY) if r.random() < 0.4 else 100 + i)
+    ops = [r.choice(['peek', 'peek', 'next', 'next2', 'iter']) for _ in range(r.randint(2, 10))]
+    return {'gen': 'user', 'start': 1, 'step': 1, 'fam': 'falsy', 'kind_of_sequence': kind, 'seq': seq, 'ops': [[o] for o in ops]}
+
+
 def _twin_case(r):
     """D-only family: TWO metamodels in one process that define the same classes (same kinds, same attribute names).  They
     start with separate generators or SHARE one generator object; during the history either one gets a fresh generator
@@ -442,6 +470,9 @@ def generate(ctx):
     lr = ctx.rng.fork('layout')
     for i in range(ctx.pick(1200, 12000)):
         yield _layout_case(lr.fork(i))
+    fr = ctx.rng.fork('falsy')
+    for i in range(ctx.pick(1500, 12000)):
+        yield _falsy_case(fr.fork(i))
     tr = ctx.rng.fork('twin')
     for i in range(ctx.pick(1200, 15000)):
         yield _twin_case(tr.fork(i))
@@ -750,6 +781,54 @@ def _run_layout(case):
             'stats': stats, 'model_line': None}
 
 
+def _run_falsy(case):
+    x = _x
+    seq = [tuple(v) if isinstance(v, list) else v for v in case['seq']]       # a replayed case holds () as []
+
+    class Seq(x.IdGenerator):
+        def __init__(self):
+            self.pos = 0
+            x.IdGenerator.__init__(self)
+
+        def readfunc(self):
+            v = seq[self.pos] if self.pos < len(seq) else 1000 + self.pos
+            self.pos += 1
+            return v
+    g = Seq()
+    fails = []
+    stats = {'cases_falsy': 1, 'falsy_' + case['kind_of_sequence']: 1}
+    handed = 0            # values handed out by next so far: the pending value is seq[handed]
+    peeked_falsy = False
+
+    def same(a, b):
+        return a == b and type(a) is type(b)
+    for n, (op,) in enumerate(case['ops']):
+        want = seq[handed] if handed < len(seq) else 1000 + handed
+        reads_before = g.pos
+        if op == 'peek':
+            v = g.peek()
+            if not want:
+                peeked_falsy = True
+            if not same(v, want):
+                fails.append({'sig': 'peek-value', 'what': 'peek returned %r, the pending value is %r (readfunc yields %r ...); history %r'
+                              % (v, want, seq[:handed + 3], case['ops'][:n + 1])})
+            if g.pos != reads_before:
+                fails.append({'sig': 'peek-advances', 'what': 'peek read %d more value(s) from readfunc (pending value %r); history %r'
+                              % (g.pos - reads_before, want, case['ops'][:n + 1])})
+        else:
+            v = next(g) if op == 'next' else (g.next() if op == 'next2' else next(iter(g)))
+            if not same(v, want):
+                fails.append({'sig': 'id-sequence', 'what': 'next returned %r as value number %d, readfunc produced %r there (sequence %r ...); '
+                              'history %r' % (v, handed + 1, want, seq[:handed + 3], case['ops'][:n + 1])})
+            if g.pos != reads_before + 1:
+                fails.append({'sig': 'id-sequence', 'what': 'next read %d values from readfunc; history %r' % (g.pos - reads_before, case['ops'][:n + 1])})
+            handed += 1
+        if len(fails) >= 3:
+            break
+    return {'obs': [], 'd_fail': fails[:3], 'nontrivial': peeked_falsy, 'key': 'falsy/%r/%r' % (case['seq'], case['ops']), 'stats': stats,
+            'model_line': None}
+
+
 def _run_twin(case):
     x = _x
     import logging
@@ -874,6 +953,8 @@ def run_impl(case):
         return _run_dry(case)
     if case.get('fam') == 'layout':
         return _run_layout(case)
+    if case.get('fam') == 'falsy':
+        return _run_falsy(case)
     x = _x
     uuid_log = []
     gen = _make_generator(case, uuid_log)
